@@ -71,11 +71,21 @@ Definition spec_final_value (C : chain) (h : heap) (orig : option nat) (kw : lis
   | Some v => Some (h, v)
   | None => spec_value h orig kw f
   end.
-(* the names a user-written __post_init__ anywhere in the hierarchy assigns *)
-Definition body_names (b : pib) : list name :=
-  flat_map (fun s => match s with PSet n _ => [n] | PSuper => [] end) (pb_body b).
-Definition hook_set_names (C : chain) : list name :=
-  flat_map (fun L => match l_pi L with Some b => body_names b | None => [] end) C.
+(* the names the user-written hooks that RUN for instances of C assign (a hook that is overridden without super() never runs) *)
+Definition hook_set_names (C : chain) : list name := map fst (spec_hook_sets C).
+
+(* where the property text takes the value of field f from, and the assignments applied in order *)
+Inductive fsource := SKw (v : value) | SOrig (v : value) | SDefault (v : value) | SFactory (k : okind) | SNone.
+Definition spec_source (h : heap) (orig : option nat) (kw : list (name * value)) (f : field) : fsource :=
+  match (if f_init f then lookup kw (f_name f) else None) with
+  | Some v => SKw v
+  | None =>
+    match (if f_init f then match orig with Some r0 => getattr h r0 (f_name f) | None => None end else None) with
+    | Some v => SOrig v
+    | None => match f_default f with DVal v => SDefault v | DFactory k => SFactory k | DNone => SNone end
+    end
+  end.
+Definition path_orig (p : path) : option nat := match p with ByCtor _ => None | ByCopy r0 _ | ByDeep r0 _ => Some r0 end.
 
 (* the request is one the property speaks about: every keyword names a field that takes part in __init__ *)
 Definition request_ok (fs : list field) (kw : list (name * value)) : bool :=
